@@ -286,7 +286,9 @@ Definition C16_mismatch (c : c16_case) : bool :=
    Directory pass: a pass whose interleaved mutations concern other uids returns
    no error, ends with done, and the concatenation of its pages is exactly the
    rows of (slot, uid) before the step, once each, ordered by
-   (ActivatedAt desc, channel id in key order, channel type). *)
+   (ActivatedAt desc, channel id in key order, channel type).  (The pass is
+   only judged when every listed row has ActivatedAt >= 0: the page cursor
+   validation of the code refuses negative activation times, see notes/C16.md.) *)
 
 Definition membership_advances (a b : membership) : bool :=
   (m_read_seq a <=? m_read_seq b) && (m_deleted_to_seq a <=? m_deleted_to_seq b)
@@ -460,6 +462,7 @@ Definition scan_ok (mkeys : list mkey) (prev : list (option membership)) (op : c
     if validateKeyString uid && forallb (fun l => (0 <? l)%Z) limits
        && forallb (fun u => negb (bytes_eqb (mut_uid u) uid)) between
        && Nat.ltb (length (present_rows slot uid mkeys prev)) scan_fuel
+       && forallb (fun m => (0 <=? m_activated_at m)%Z) (present_rows slot uid mkeys prev)
     then pages_well_formed ps
          && list_eqb membership_eqb (pages_rows ps) (expected_listing slot uid mkeys prev)
     else true
